@@ -1,4 +1,5 @@
 import Ivy.Drv.Avl
+import Ivy.Drv.AvlPtr
 import Ivy.Drv.Heap
 import Ivy.Drv.Pump
 import Ivy.Drv.Loop
@@ -14,6 +15,7 @@ import Ivy.Drv.Raw
 def main (args : List String) : IO UInt32 := do
   match args with
   | ["avl"] => Ivy.Drv.Avl.run; return 0
+  | ["avlptr"] => Ivy.Drv.AvlPtr.runQuiet; return 0
   | ["heap"] => Ivy.Drv.Heap.run; return 0
   | ["pump"] => Ivy.Drv.Pump.run; return 0
   | ["loop"] => Ivy.Drv.Loop.run; return 0
